@@ -4,6 +4,7 @@ import (
 	"errors"
 	"fmt"
 	"io"
+	"math/big"
 	"net"
 	"sort"
 	"strconv"
@@ -31,7 +32,9 @@ import (
 //	     (ops OP…))
 //	OP  = (set C (a KIND NAME LIT [LIT])…)   KIND: sys ses glob user names
 //	    | (run C K FAULT) | (sync C K FAULT)  FAULT: ok sqlmode other
-//	LIT = (i N) | (w WORD) | (s TEXT)
+//	LIT = (i N) | (w WORD) | (s TEXT) | (e EXPR)
+//	EXPR = (i N) | (s TEXT) | null | (uv NAME) | (sv NAME) | (ssv NAME) | (gv NAME) | (cat EXPR EXPR) | (add EXPR EXPR)
+//	       @NAME, @@NAME, @@SESSION.NAME, @@GLOBAL.NAME, CONCAT(E, E), E + E: a value the proxy cannot evaluate
 //
 // (all names and texts are hex atoms). The real code that runs: the parser and
 // SessionExecutor.handleSet for `set`; initBackendConn →
@@ -39,8 +42,9 @@ import (
 // SetSessionVariables / WriteSetStatement → COM_QUERY over an in-memory
 // transport for `run`; DirectConnection.SyncSessionVariables for `sync`. The
 // other end of the transport is a scripted MySQL session that parses the SET
-// statement text, applies it atomically or rejects it, and reports its state
-// when the client's statement executes. PROXY803, COLL247 and V803 are what
+// statement text, applies it atomically — evaluating every value: literals,
+// user variables, session and global system variables, CONCAT and + — or
+// rejects it, and reports its state when the client's statement executes. PROXY803, COLL247 and V803 are what
 // util.NewVersionCompareStatus reports for the version strings at generation
 // time (the model takes the flags, the implementation the versions).
 //
@@ -59,7 +63,7 @@ func init() {
 	core.Register(&core.Property{
 		ID: "C20",
 		Rule: "histories of 2-4 clients over a pool of 1-3 connections (mixed server versions): SET of allow-listed, namespace-allowed, user and unknown variables " +
-			"with int/word/string literals incl. DEFAULT/NULL/boundary ints/bad values, SET NAMES with and without COLLATE (matching, mismatching, unknown, >247), " +
+			"with int/word/string literals incl. DEFAULT/NULL/boundary ints/bad values and with expressions (CONCAT, +, user / session / global variables) as values, both spellings of transaction_read_only held by one client, SET NAMES with and without COLLATE (matching, mismatching, unknown, >247), " +
 			"statement executions and transaction starts on chosen connections with the backend accepting or rejecting (1231 sql_mode / other) the SET statement; " +
 			"non-trivial = at least one client statement executed on a backend after a SET statement was sent",
 		Generate: genC20,
@@ -69,10 +73,11 @@ func init() {
 		},
 		Extra: c20Extra,
 		Assumptions: []string{
-			"MySQL applies a SET statement atomically, left to right, or rejects it as a whole; `x = DEFAULT` and `@u = NULL` restore the default; variables are independent of each other (tx_read_only/transaction_read_only aliasing inside the server is not modelled)",
+			"MySQL applies a SET statement atomically, left to right (each value is evaluated in the session as the assignments before it left it), or rejects it as a whole; `x = DEFAULT` and `@u = NULL` restore the default; variables are independent of each other (tx_read_only/transaction_read_only aliasing inside the server is not modelled); of MySQL's expressions the scripted session knows literals, NULL, @user, @@session / @@global variables, CONCAT of two arguments and + on integers",
+			"a value that is an expression stands for the value it has in the client's own session when the client sends the SET statement; an expression that refers to a variable assigned in the same SET statement is not generated (the order of the assignments the proxy writes is the order of a Go map)",
 			"the pool hands a connection to one session at a time and replaces a closed connection by a fresh one (properties C19/C24); one operation = get, initBackendConn, execute, recycle",
 			"the SQL parser and the Restore of literal expressions are used as they are (only int, bare-word and simple quoted literals are generated; quotes/commas inside values belong to C15)",
-			"a client's requested settings are what the proxy recorded for it after acknowledging its SET statements",
+			"a client's requested settings are what the proxy recorded for it after acknowledging its SET statements (for a literal value: the recorded text; for an expression: its value, see above); a SET statement the backend rejects cancels what the client has set since its last executed statement",
 		},
 	})
 }
@@ -173,6 +178,209 @@ func newC20Backend(charset string, collation mysql.CollationID) *c20Backend {
 	return &c20Backend{charset: charset, collation: mysql.Collations[collation], vars: map[string]string{}, fault: "ok"}
 }
 
+// c20Globals are the global variables of every scripted backend (lean/GaeaVerif/Drv/C20.lean: serverGlobals).
+var c20Globals = map[string]string{"sql_mode": "'ONLY_FULL_GROUP_BY'", "max_connections": "151", "foo_str": "'gdef'", "foo_int": "3", "foo_ref": "9"}
+
+// ---------- the scripted session's expression language (Model/SessionVars.lean: parseE, evalExpr, evalText) ----------
+
+type c20Expr struct {
+	kind string // int str null uvar svar gvar cat add
+	i    *big.Int
+	s    string
+	a, b *c20Expr
+}
+
+func c20IsNameChar(c byte) bool {
+	return c >= 'a' && c <= 'z' || c >= 'A' && c <= 'Z' || c >= '0' && c <= '9' || c == '_'
+}
+
+func c20ParseName(cs string, kind string) (*c20Expr, string, bool) {
+	n := 0
+	for n < len(cs) && c20IsNameChar(cs[n]) {
+		n++
+	}
+	if n == 0 {
+		return nil, "", false
+	}
+	return &c20Expr{kind: kind, s: cs[:n]}, cs[n:], true
+}
+
+// c20ParseE parses a sum of terms; a term is a literal, NULL, a variable or CONCAT(e, e).
+func c20ParseE(cs string) (*c20Expr, string, bool) {
+	var a *c20Expr
+	var rest string
+	ok := false
+	switch {
+	case strings.HasPrefix(cs, "'"):
+		r := cs[1:]
+		i := strings.IndexByte(r, '\'')
+		if i >= 0 {
+			a, rest, ok = &c20Expr{kind: "str", s: r[:i]}, r[i+1:], true
+		}
+	case strings.HasPrefix(cs, "@@"):
+		r := cs[2:]
+		switch {
+		case strings.HasPrefix(r, "GLOBAL."):
+			a, rest, ok = c20ParseName(r[len("GLOBAL."):], "gvar")
+		case strings.HasPrefix(r, "SESSION."):
+			a, rest, ok = c20ParseName(r[len("SESSION."):], "svar")
+		default:
+			a, rest, ok = c20ParseName(r, "svar")
+		}
+	case strings.HasPrefix(cs, "@"):
+		a, rest, ok = c20ParseName(cs[1:], "uvar")
+	case strings.HasPrefix(cs, "NULL"):
+		r := cs[4:]
+		if len(r) == 0 || !c20IsNameChar(r[0]) {
+			a, rest, ok = &c20Expr{kind: "null"}, r, true
+		}
+	case strings.HasPrefix(cs, "CONCAT("):
+		x, r1, ok1 := c20ParseE(cs[len("CONCAT("):])
+		if ok1 && strings.HasPrefix(r1, ", ") {
+			y, r2, ok2 := c20ParseE(r1[2:])
+			if ok2 && strings.HasPrefix(r2, ")") {
+				a, rest, ok = &c20Expr{kind: "cat", a: x, b: y}, r2[1:], true
+			}
+		}
+	default:
+		ds0, neg := cs, false
+		if strings.HasPrefix(cs, "-") {
+			ds0, neg = cs[1:], true
+		}
+		n := 0
+		for n < len(ds0) && ds0[n] >= '0' && ds0[n] <= '9' {
+			n++
+		}
+		if n > 0 {
+			v, _ := new(big.Int).SetString(ds0[:n], 10)
+			if neg {
+				v.Neg(v)
+			}
+			a, rest, ok = &c20Expr{kind: "int", i: v}, ds0[n:], true
+		}
+	}
+	if !ok {
+		return nil, "", false
+	}
+	if strings.HasPrefix(rest, "+") {
+		b, r, ok2 := c20ParseE(rest[1:])
+		if !ok2 {
+			return nil, "", false
+		}
+		return &c20Expr{kind: "add", a: a, b: b}, r, true
+	}
+	return a, rest, true
+}
+
+func c20ParseText(t string) *c20Expr {
+	e, rest, ok := c20ParseE(t)
+	if !ok || rest != "" {
+		return nil
+	}
+	return e
+}
+
+// a value: kind int / str / null
+type c20V struct {
+	kind string
+	i    *big.Int
+	s    string
+}
+
+func (v c20V) text() string {
+	switch v.kind {
+	case "int":
+		return v.i.String()
+	case "str":
+		return "'" + v.s + "'"
+	}
+	return "NULL"
+}
+
+func (v c20V) plain() string {
+	switch v.kind {
+	case "int":
+		return v.i.String()
+	case "str":
+		return v.s
+	}
+	return ""
+}
+
+func c20ValOfText(t string) c20V {
+	if e := c20ParseText(t); e != nil {
+		switch e.kind {
+		case "int":
+			return c20V{kind: "int", i: e.i}
+		case "str":
+			return c20V{kind: "str", s: e.s}
+		case "null":
+			return c20V{kind: "null"}
+		}
+	}
+	return c20V{kind: "str", s: t}
+}
+
+func c20Lookup(m map[string]string, k string) (c20V, bool) {
+	t, ok := m[k]
+	if !ok {
+		return c20V{}, false
+	}
+	return c20ValOfText(t), true
+}
+
+func c20Eval(g, vars map[string]string, e *c20Expr) c20V {
+	null := c20V{kind: "null"}
+	switch e.kind {
+	case "int":
+		return c20V{kind: "int", i: e.i}
+	case "str":
+		return c20V{kind: "str", s: e.s}
+	case "null":
+		return null
+	case "uvar":
+		if v, ok := c20Lookup(vars, "@"+e.s); ok {
+			return v
+		}
+		return null
+	case "svar":
+		if v, ok := c20Lookup(vars, e.s); ok {
+			return v
+		}
+		if v, ok := c20Lookup(g, e.s); ok {
+			return v
+		}
+		return null
+	case "gvar":
+		if v, ok := c20Lookup(g, e.s); ok {
+			return v
+		}
+		return null
+	case "cat":
+		x, y := c20Eval(g, vars, e.a), c20Eval(g, vars, e.b)
+		if x.kind == "null" || y.kind == "null" {
+			return null
+		}
+		return c20V{kind: "str", s: x.plain() + y.plain()}
+	case "add":
+		x, y := c20Eval(g, vars, e.a), c20Eval(g, vars, e.b)
+		if x.kind == "int" && y.kind == "int" {
+			return c20V{kind: "int", i: new(big.Int).Add(x.i, y.i)}
+		}
+		return null
+	}
+	return null
+}
+
+// c20EvalText: what a session stores when it is assigned the text t.
+func c20EvalText(g, vars map[string]string, t string) string {
+	e := c20ParseText(t)
+	if e == nil || e.kind == "int" || e.kind == "str" || e.kind == "null" {
+		return t
+	}
+	return c20Eval(g, vars, e).text()
+}
+
 func (b *c20Backend) state() string {
 	names := make([]string, 0, len(b.vars))
 	for k := range b.vars {
@@ -186,20 +394,27 @@ func (b *c20Backend) state() string {
 	return core.L(xs...).String()
 }
 
-// splitTop splits at commas outside single quotes.
+// splitTop splits at commas outside single quotes and parentheses.
 func c20SplitTop(s string) []string {
 	var parts []string
 	inq := false
+	depth := 0
 	start := 0
 	for i := 0; i < len(s); i++ {
-		switch s[i] {
-		case '\'':
+		c := s[i]
+		switch {
+		case c == '\'':
 			inq = !inq
-		case ',':
-			if !inq {
-				parts = append(parts, s[start:i])
-				start = i + 1
+		case inq:
+		case c == '(':
+			depth++
+		case c == ')':
+			if depth > 0 {
+				depth--
 			}
+		case c == ',' && depth == 0:
+			parts = append(parts, s[start:i])
+			start = i + 1
 		}
 	}
 	return append(parts, s[start:])
@@ -288,10 +503,10 @@ func (b *c20Backend) handle(payload []byte) []byte {
 			for _, it := range items {
 				if it.names {
 					b.charset, b.collation = it.key, it.val
-				} else if strings.ToLower(it.val) == "default" || (strings.HasPrefix(it.key, "@") && it.val == "NULL") {
+				} else if v := c20EvalText(c20Globals, b.vars, it.val); strings.ToLower(v) == "default" || (strings.HasPrefix(it.key, "@") && v == "NULL") {
 					delete(b.vars, it.key)
 				} else {
-					b.vars[it.key] = it.val
+					b.vars[it.key] = v
 				}
 			}
 			return b.okPacket()
@@ -432,6 +647,31 @@ func c20Conn(s *c20Slot) core.Sexp {
 	return core.L(core.A("conn"), core.A(st), core.Text(cs), core.I(int64(coll)), core.L(c20VarList(names, values)...), core.L(us...))
 }
 
+func c20ExprSQL(e core.Sexp) string {
+	if e.Atom == "null" {
+		return "NULL"
+	}
+	switch e.Head() {
+	case "i":
+		return e.Nth(1).Atom
+	case "s":
+		return "'" + e.Nth(1).Str() + "'"
+	case "uv":
+		return "@" + e.Nth(1).Str()
+	case "sv":
+		return "@@" + e.Nth(1).Str()
+	case "ssv":
+		return "@@session." + e.Nth(1).Str()
+	case "gv":
+		return "@@global." + e.Nth(1).Str()
+	case "cat":
+		return "CONCAT(" + c20ExprSQL(e.Nth(1)) + ", " + c20ExprSQL(e.Nth(2)) + ")"
+	case "add":
+		return c20ExprSQL(e.Nth(1)) + " + " + c20ExprSQL(e.Nth(2))
+	}
+	panic("bad expression " + e.String())
+}
+
 func c20LitSQL(l core.Sexp) string {
 	switch l.Head() {
 	case "i":
@@ -440,6 +680,8 @@ func c20LitSQL(l core.Sexp) string {
 		return l.Nth(1).Str()
 	case "s":
 		return "'" + l.Nth(1).Str() + "'"
+	case "e":
+		return c20ExprSQL(l.Nth(1))
 	}
 	panic("bad literal " + l.String())
 }
@@ -585,7 +827,7 @@ func c20Flags(version string) (coll247, v803 bool) {
 func genC20(g *core.Gen) {
 	n := g.Scale(2000, 25000)
 	for i := 0; i < n; i++ {
-		c20GenCase(g, i%8 == 7)
+		c20GenCase(g, i%8 == 7, i%8 == 3)
 	}
 	if g.Tier != "quick" {
 		c20Exhaustive(g)
@@ -609,6 +851,8 @@ func c20Exhaustive(g *core.Gen) {
 		set(0, "tx_read_only", "(w "+t("DEFAULT")+")"),
 		fmt.Sprintf("(set 1 (a names %s (w %s)))", t("names"), t("latin1")),
 		fmt.Sprintf("(set 0 (a user %s (i 7)))", t("x")),
+		fmt.Sprintf("(set 1 (a user %s (e (uv %s))))", t("y"), t("x")),
+		fmt.Sprintf("(set 0 (a user %s (e (add (uv %s) (i 1)))))", t("x"), t("x")),
 		"(run 0 0 ok)", "(run 0 0 other)", "(run 1 0 ok)", "(run 1 0 sqlmode)", "(sync 1 0 ok)", "(sync 0 0 other)",
 	}
 	for _, ver := range []string{"5.7.25", "8.0.30"} {
@@ -619,7 +863,7 @@ func c20Exhaustive(g *core.Gen) {
 		for a := 0; a < n; a++ {
 			for b := 0; b < n; b++ {
 				for c := 0; c < n; c++ {
-					for d := 7; d < n; d++ { // a history that ends with a SET shows nothing new
+					for d := 9; d < n; d++ { // a history that ends with a SET shows nothing new
 						g.Emit(core.MustParse(head+alphabet[a]+" "+alphabet[b]+" "+alphabet[c]+" "+alphabet[d]+"))"), "exhaustive")
 					}
 				}
@@ -634,7 +878,11 @@ var c20Charsets = []c20CS{{"utf8mb4", 46}, {"utf8mb4", 45}, {"utf8", 33}, {"utf8
 // c20GenCase emits one history. alias: the focused stream for backends that
 // know tx_read_only only as transaction_read_only (proxy advertising 5.x,
 // MySQL 8.0.30 behind it, clients using different spellings of the variable).
-func c20GenCase(g *core.Gen, alias bool) {
+//
+// restore: the focused stream for the acknowledged copy of a client's variables: few clients, and after a
+// statement has executed the client changes its settings — often by putting a variable it has set back to
+// DEFAULT, or by setting it again — and the backend rejects the next SET statement.
+func c20GenCase(g *core.Gen, alias bool, restore bool) {
 	var tags []string
 	// configuration
 	proxyVer := core.Pick(g, []string{"5.6.20-gaea", "5.6.20-gaea", "5.7.25-gaea", "8.0.30-gaea", "8.0.2-gaea"})
@@ -648,7 +896,7 @@ func c20GenCase(g *core.Gen, alias bool) {
 		tags = append(tags, "alias-stream")
 	}
 	_, proxy803 := c20Flags(proxyVer)
-	allowedAll := [][2]string{{"foo_int", "int"}, {"foo_str", "string"}, {"foo_bool", "bool"}, {"transaction_isolation", "string"}, {"foo_odd", "float"}, {"innodb_lock_wait_timeout", "int"}}
+	allowedAll := [][2]string{{"foo_int", "int"}, {"foo_str", "string"}, {"foo_bool", "bool"}, {"transaction_isolation", "string"}, {"foo_odd", "float"}, {"innodb_lock_wait_timeout", "int"}, {"foo_ref", "int"}}
 	var allowed []core.Sexp
 	allowedNames := []string{}
 	for _, a := range allowedAll {
@@ -660,6 +908,10 @@ func c20GenCase(g *core.Gen, alias bool) {
 	def := core.Pick(g, []c20CS{{"utf8mb4", 46}, {"utf8mb4", 45}, {"utf8", 33}, {"latin1", 8}})
 	nClients := 2 + g.Intn(3)
 	nConns := 1 + g.Intn(3)
+	if restore {
+		nClients, nConns = 1+g.Intn(2), 1+g.Intn(2)
+		tags = append(tags, "restore-stream")
+	}
 	clients := []core.Sexp{core.A("clients")}
 	for i := 0; i < nClients; i++ {
 		cs := def
@@ -688,16 +940,13 @@ func c20GenCase(g *core.Gen, alias bool) {
 	if anyV803 {
 		tags = append(tags, "conn-ge-8.0.3")
 	}
-	// when a backend renames tx_read_only, one client must not use both spellings (they would meet in one
-	// statement, in unspecified map order); different clients may use different ones
+	// one client may use both spellings of transaction_read_only (a >= 8.0.3 backend is then sent the value recorded
+	// under its own name); in the alias stream every other client does
 	txNamesOf := make([][]string, nClients+2)
 	for i := range txNamesOf {
 		txNamesOf[i] = []string{"tx_read_only", "transaction_read_only"}
-		if anyV803 && !proxy803 {
-			txNamesOf[i] = []string{core.Pick(g, txNamesOf[i])}
-			if alias {
-				txNamesOf[i] = []string{[]string{"tx_read_only", "transaction_read_only"}[i%2]}
-			}
+		if alias && i%2 == 0 {
+			txNamesOf[i] = []string{[]string{"tx_read_only", "transaction_read_only"}[(i/2)%2]}
 		}
 	}
 	cur := 0 // the client the assignment being generated belongs to
@@ -729,11 +978,76 @@ func c20GenCase(g *core.Gen, alias bool) {
 			return "sys"
 		}
 		dflt := func() core.Sexp { return lit("w", core.Pick(g, []string{"DEFAULT", "default", "Default"})) }
-		kind := g.Intn(16)
+		kind := g.Intn(20)
 		if alias && g.Intn(2) == 0 {
 			kind = 2
 		}
+		// values the proxy cannot evaluate. An expression never reads a variable that the same client assigns
+		// (the statement the proxy writes has its assignments in map order), except the very variable it is
+		// assigned to: odd clients read @p, @q and foo_ref, which only even clients assign.
+		e := func(x core.Sexp) core.Sexp { return core.L(core.A("e"), x) }
+		ex := func(head string, xs ...core.Sexp) core.Sexp {
+			return core.L(append([]core.Sexp{core.A(head)}, xs...)...)
+		}
+		nm := func(head, name string) core.Sexp { return core.L(core.A(head), core.Text(name)) }
+		freeAtom := func() core.Sexp {
+			switch g.Intn(7) {
+			case 0:
+				return core.A("null")
+			case 1:
+				return nm("gv", core.Pick(g, []string{"max_connections", "sql_mode", "foo_str", "foo_int", "nosuch_global"}))
+			case 2, 3:
+				return intLit(core.Pick(g, []string{"0", "1", "7", "-5", "100"}))
+			}
+			return lit("s", core.Pick(g, []string{"a", "B", "", "x y", ",ANSI", "v:"}))
+		}
+		sessionAtom := func(self core.Sexp) core.Sexp {
+			if cur%2 == 1 && g.Intn(3) > 0 {
+				tags = append(tags, "expr-reads-other-client")
+				return core.Pick(g, []core.Sexp{nm("uv", "p"), nm("uv", "q"), nm("sv", "foo_ref"), nm("ssv", "foo_ref")})
+			}
+			tags = append(tags, "expr-reads-self")
+			return self
+		}
+		anyExpr := func(self core.Sexp) core.Sexp {
+			atom := func() core.Sexp {
+				if g.Intn(3) == 0 {
+					tags = append(tags, "expr-session")
+					return sessionAtom(self)
+				}
+				return freeAtom()
+			}
+			switch g.Intn(6) {
+			case 0:
+				tags = append(tags, "expr-session")
+				return sessionAtom(self)
+			case 1:
+				return nm("gv", core.Pick(g, []string{"max_connections", "sql_mode", "foo_str", "nosuch_global"}))
+			case 2:
+				return ex("add", atom(), intLit(core.Pick(g, []string{"1", "2", "10"})))
+			case 3:
+				return ex("cat", ex("cat", atom(), freeAtom()), atom())
+			}
+			return ex("cat", atom(), atom())
+		}
 		switch kind {
+		case 16, 17: // user variable = expression
+			name := core.Pick(g, []string{"x", "y", "cnt", "a1"})
+			tags = append(tags, "set-user-expr")
+			return a("user", name, e(anyExpr(nm("uv", name))))
+		case 18: // sql_mode = expression
+			tags = append(tags, "set-sql_mode-expr")
+			return a(sysKind(), "sql_mode", e(core.Pick(g, []core.Sexp{
+				ex("cat", nm("gv", "sql_mode"), lit("s", ",ANSI")),
+				ex("cat", nm("sv", "sql_mode"), lit("s", ",ANSI")),
+				ex("cat", nm("ssv", "sql_mode"), lit("s", ",NO_ZERO_DATE")),
+				nm("gv", "sql_mode"), nm("ssv", "sql_mode"),
+				ex("cat", lit("s", "ANSI"), lit("s", ",TRADITIONAL")),
+			})))
+		case 19: // the other variables = expression: the string ones hand it on, the others refuse it
+			name := core.Pick(g, []string{"foo_str", "foo_str", "transaction_isolation", "foo_int", "foo_bool", "sql_select_limit", "time_zone", "character_set_results", "tx_read_only", "sql_safe_updates", "nosuch_var", "foo_odd"})
+			tags = append(tags, "set-var-expr")
+			return a(sysKind(), name, e(anyExpr(nm("sv", name))))
 		case 0, 1: // int variables
 			name := core.Pick(g, []string{"sql_select_limit", "group_concat_max_len", "lock_wait_timeout", "max_execution_time", "SQL_SELECT_LIMIT"})
 			tags = append(tags, "set-int")
@@ -780,6 +1094,10 @@ func c20GenCase(g *core.Gen, alias bool) {
 			return a(sysKind(), name, core.Pick(g, []core.Sexp{lit("w", "utf8"), lit("w", "NULL"), lit("w", "DEFAULT"), lit("s", "LATIN1"), lit("w", "gbk"), lit("s", "null")}))
 		case 7, 8, 9: // user variables
 			name := core.Pick(g, []string{"x", "y", "X", "cnt", "a1"})
+			if cur%2 == 0 && g.Intn(3) == 0 {
+				// the variables the expressions of the odd clients read; only even clients assign them
+				name = core.Pick(g, []string{"p", "q"})
+			}
 			tags = append(tags, "set-user")
 			switch g.Intn(6) {
 			case 0:
@@ -790,6 +1108,9 @@ func c20GenCase(g *core.Gen, alias bool) {
 			return a("user", name, anyInt())
 		case 10, 11: // namespace-allowed and unknown variables
 			name := core.Pick(g, []string{"foo_int", "foo_str", "foo_bool", "transaction_isolation", "foo_odd", "innodb_lock_wait_timeout", "nosuch_var", "wait_timeout", "max_allowed_packet", "net_read_timeout", "transaction"})
+			if cur%2 == 0 && g.Intn(4) == 0 {
+				name = "foo_ref" // read by the expressions of the odd clients; only even clients assign it
+			}
 			tags = append(tags, "set-namespace-var")
 			switch g.Intn(5) {
 			case 0:
@@ -821,7 +1142,15 @@ func c20GenCase(g *core.Gen, alias bool) {
 
 	ops := []core.Sexp{core.A("ops")}
 	nOps := 4 + g.Intn(g.Scale(12, 24))
+	// restore stream: what each client has assigned so far (kind, name), and whether it changed something since
+	// its last statement
+	assigned := make([][]core.Sexp, nClients+2)
+	changed := make([]bool, nClients+2)
 	fault := func() string {
+		if restore && changed[cur] && g.Intn(2) == 0 {
+			tags = append(tags, "fault-after-change")
+			return core.Pick(g, []string{"sqlmode", "other"})
+		}
 		switch g.Intn(7) {
 		case 0:
 			tags = append(tags, "fault-sqlmode")
@@ -849,12 +1178,36 @@ func c20GenCase(g *core.Gen, alias bool) {
 			}
 			cur = c
 			for j := 0; j < na; j++ {
-				xs = append(xs, assign())
+				var as core.Sexp
+				if restore && len(assigned[c]) > 0 && g.Intn(2) == 0 {
+					// a variable the client has assigned before goes back to its default (or gets another value)
+					prev := core.Pick(g, assigned[c])
+					v := lit("w", "DEFAULT")
+					if prev.Nth(1).Atom == "user" {
+						v = core.Pick(g, []core.Sexp{lit("w", "NULL"), intLit("7"), lit("s", "other")})
+					} else if g.Intn(4) == 0 {
+						v = core.Pick(g, []core.Sexp{intLit("1"), intLit("0"), lit("s", "ANSI")})
+					}
+					as = core.L(core.A("a"), prev.Nth(1), prev.Nth(2), v)
+					tags = append(tags, "set-again")
+				} else {
+					as = assign()
+				}
+				if as.Nth(1).Atom != "names" && as.Nth(1).Atom != "glob" {
+					assigned[c] = append(assigned[c], as)
+				}
+				xs = append(xs, as)
 			}
+			changed[c] = true
 			ops = append(ops, core.L(xs...))
 		case r < 18:
 			tags = append(tags, "run")
-			ops = append(ops, core.L(core.A("run"), core.I(int64(c)), core.I(int64(k)), core.A(fault())))
+			cur = c
+			f := fault()
+			if f == "ok" {
+				changed[c] = false
+			}
+			ops = append(ops, core.L(core.A("run"), core.I(int64(c)), core.I(int64(k)), core.A(f)))
 		default:
 			tags = append(tags, "sync")
 			ops = append(ops, core.L(core.A("sync"), core.I(int64(c)), core.I(int64(k)), core.A(fault())))
